@@ -424,10 +424,33 @@ def parse(text):
 def install():
     m = types.ModuleType('vtlengine.AST.Grammar._cpp_parser.vtl_cpp_parser')
     m.ParseNode, m.TerminalNode = ParseNode, TerminalNode
-    m.parse = parse
-    m.get_comments = lambda: list(ST.comments)
-    m.get_input_text = lambda: ST.text
-    m.get_syntax_error = lambda: ST.error
+    # every access to the module-level "last parse" state is reported to the verification sink (when the
+    # guard is on), so that a read outside parser_lock is visible to the C17 analysis wherever it moves
+    def _acc(mode, what):
+        v = sys.modules.get('vtlengine._verif')
+        if v is not None:
+            v.access('parser_state', mode, what)
+
+    def _parse(text):
+        _acc('w', 'stub.parse')
+        return parse(text)
+
+    def _get_comments():
+        _acc('r', 'stub.get_comments')
+        return list(ST.comments)
+
+    def _get_input_text():
+        _acc('r', 'stub.get_input_text')
+        return ST.text
+
+    def _get_syntax_error():
+        _acc('r', 'stub.get_syntax_error')
+        return ST.error
+
+    m.parse = _parse
+    m.get_comments = _get_comments
+    m.get_input_text = _get_input_text
+    m.get_syntax_error = _get_syntax_error
     for n, v in TTYPE.items():
         setattr(m, n, v)
     sys.modules['vtlengine.AST.Grammar._cpp_parser.vtl_cpp_parser'] = m
